@@ -108,8 +108,9 @@ def cmd_compare(argv):
             continue
         idx = diffs[0]
         print("buildmatrix: run %d differs between [%s] and [%s] (%d of %d runs differ)" % (idx, base_name, name, len(diffs), len(base)))
-        os.makedirs(os.path.join(VERIF, "replays"), exist_ok=True)
-        path = os.path.join(VERIF, "replays", "%s-%s-%d-matrix.json" % (ID, SEED, idx))
+        rpdir = os.environ.get("RPDIR", os.path.join(VERIF, "replays"))
+        os.makedirs(rpdir, exist_ok=True)
+        path = os.path.join(rpdir, "%s-%s-%d-matrix.json" % (ID, SEED, idx))
         r = subprocess.run([base_bin, "dump", "--prop", ID, "--seed", SEED, "--index", str(idx), "--out", path], capture_output=True, text=True)
         if r.returncode != 0:
             print("HARNESS-ERROR: dump failed: " + r.stderr[:300])
